@@ -387,7 +387,10 @@ def has_quantifier(t) -> bool:
             continue
         seen.add(i)
         if z3.is_quantifier(x):
-            return True
+            if not x.is_lambda():
+                return True
+            stack.append(x.body())        # array comprehension: not a quantified formula
+            continue
         if z3.is_app(x):
             stack.extend(x.children())
     return False
@@ -614,13 +617,19 @@ class Interp:
         if z3.is_int_value(c):
             return self.ctx.classes[c.as_long()]
         # ask the solver whether the path condition pins it down
-        if self._check() != z3.sat:
+        r0 = self._check()
+        if r0 != z3.sat:
+            if os.environ.get("PYVC_DEBUG"):
+                print(f"[class_of] base check {r0} at {self.cur_func}:{self.cur_line}", flush=True)
             return None
         m = self.solver.model()
         cand = m.eval(c, model_completion=True)
         if not z3.is_int_value(cand):
             return None
-        if self._check(c != cand) == z3.unsat:
+        r1 = self._check(c != cand)
+        if os.environ.get("PYVC_DEBUG") and r1 != z3.unsat:
+            print(f"[class_of] not pinned: cand={cand} r={r1} at {self.cur_func}:{self.cur_line} oid={str(self.oid_of(ov))[:150]}\n   pcs=" + "\n       ".join(str(x)[:160].replace("\n", " ") for x in self.solver_pcs[-6:]), flush=True)
+        if r1 == z3.unsat:
             k = cand.as_long()
             if 0 <= k < len(self.ctx.classes):
                 return self.ctx.classes[k]
